@@ -241,6 +241,18 @@ func (ca *condAtoms) form(e ast.Expr, depth int) *cform {
 			return &cform{op: gNot, kids: []*cform{ca.form(x.X, depth)}, expr: x}
 		}
 	case *ast.BinaryExpr:
+		if len(ca.g.signFlags) > 0 {
+			if id, nonNeg, ok := signCmpParts(f, x); ok {
+				if o := f.ObjOf(id); o != nil && ca.g.signFlags[o] {
+					if k := ca.flagIndex(o); k >= 0 {
+						if nonNeg {
+							return &cform{op: gLeaf, atom: -1 - k}
+						}
+						return &cform{op: gNot, kids: []*cform{{op: gLeaf, atom: -1 - k}}}
+					}
+				}
+			}
+		}
 		switch x.Op {
 		case token.LAND:
 			return &cform{op: gAnd, kids: []*cform{ca.form(x.X, depth), ca.form(x.Y, depth)}, expr: x}
@@ -1039,7 +1051,188 @@ func (g *Graph) boolFlags() []types.Object {
 			})
 		}
 	}
+	// found-index variables: integer locals whose every assignment is -1 or certainly non-negative (a range key, a
+	// non-negative constant, len / cap) and that are compared with 0 or -1: `idx >= 0` is tracked like a flag
+	g.signFlags = map[types.Object]bool{}
+	signCand := map[types.Object]*ast.Ident{}
+	for _, b := range g.Blocks {
+		for k := range b.Succs {
+			c := g.edgeCond(b, k)
+			if c == nil {
+				continue
+			}
+			ast.Inspect(c.E, func(n ast.Node) bool {
+				be, ok := n.(*ast.BinaryExpr)
+				if !ok {
+					return true
+				}
+				if id, _, ok := signCmpParts(f, be); ok {
+					if o := f.ObjOf(id); o != nil {
+						signCand[o] = id
+					}
+				}
+				return true
+			})
+		}
+	}
+	var signObjs []types.Object
+	for o := range signCand {
+		signObjs = append(signObjs, o)
+	}
+	sort.Slice(signObjs, func(i, j int) bool { return signObjs[i].Pos() < signObjs[j].Pos() })
+	for _, o := range signObjs {
+		id := signCand[o]
+		v, isVar := o.(*types.Var)
+		if !isVar || v.IsField() || v.Pkg() == nil || v.Parent() == v.Pkg().Scope() || f.assignedInLit(o) || g.nilFlags[o] {
+			continue
+		}
+		isParam := false
+		if f.Type.Params != nil {
+			for _, fld := range f.Type.Params.List {
+				for _, nm := range fld.Names {
+					if f.Info().Defs[nm] == o {
+						isParam = true
+					}
+				}
+			}
+		}
+		if isParam {
+			continue
+		}
+		okAll, n := true, 0
+		ast.Inspect(f.Body, func(nd ast.Node) bool {
+			switch st := nd.(type) {
+			case *ast.AssignStmt:
+				for i, l := range st.Lhs {
+					if lid, isId := l.(*ast.Ident); isId && f.ObjOf(lid) == o {
+						n++
+						if len(st.Lhs) != len(st.Rhs) || (st.Tok != token.ASSIGN && st.Tok != token.DEFINE) {
+							okAll = false
+							continue
+						}
+						if _, known := signOf(f, st.Rhs[i]); !known {
+							okAll = false
+						}
+					}
+				}
+			case *ast.IncDecStmt:
+				if lid, isId := st.X.(*ast.Ident); isId && f.ObjOf(lid) == o {
+					okAll = false
+				}
+			case *ast.RangeStmt:
+				for _, kv := range []ast.Expr{st.Key, st.Value} {
+					if lid, isId := kv.(*ast.Ident); isId && f.ObjOf(lid) == o {
+						okAll = false
+					}
+				}
+			case *ast.UnaryExpr:
+				if st.Op == token.AND && f.ObjOf(ast.Unparen(st.X)) == o {
+					okAll = false
+				}
+			}
+			return true
+		})
+		if okAll && n > 0 {
+			g.signFlags[o] = true
+			out = append(out, o)
+			if g.flagIdent == nil {
+				g.flagIdent = map[types.Object]*ast.Ident{}
+			}
+			g.flagIdent[o] = id
+		}
+	}
 	g.flags = &out
+	return out
+}
+
+// signCmpParts views be as a comparison of a local integer variable with 0 or -1 that, for a value that is -1 or
+// non-negative, says "non-negative" (nonNeg = true) or "is -1" (false).
+func signCmpParts(f *Fn, be *ast.BinaryExpr) (id *ast.Ident, nonNeg bool, ok bool) {
+	x, y, op := be.X, be.Y, be.Op
+	if f.ConstVal(x) != nil && f.ConstVal(y) == nil {
+		x, y = y, x
+		if m, has := mirrorOp[op]; has {
+			op = m
+		}
+	}
+	id, isId := ast.Unparen(x).(*ast.Ident)
+	cv := f.ConstVal(y)
+	if !isId || cv == nil {
+		return nil, false, false
+	}
+	c, exact := constantInt(cv)
+	if !exact {
+		return nil, false, false
+	}
+	if tv, has := f.Info().Types[id]; !has || tv.Type == nil {
+		return nil, false, false
+	} else if b, isB := tv.Type.Underlying().(*types.Basic); !isB || b.Info()&types.IsInteger == 0 || b.Info()&types.IsUnsigned != 0 {
+		return nil, false, false
+	}
+	switch {
+	case op == token.GEQ && c == 0, op == token.GTR && c == -1, op == token.NEQ && c == -1:
+		return id, true, true
+	case op == token.LSS && c == 0, op == token.LEQ && c == -1, op == token.EQL && c == -1:
+		return id, false, true
+	}
+	return nil, false, false
+}
+
+// signOf classifies an assigned value: -1 (false), certainly non-negative (true), or unknown.
+func signOf(f *Fn, e ast.Expr) (nonNeg bool, known bool) {
+	e = ast.Unparen(e)
+	if cv := f.ConstVal(e); cv != nil {
+		if c, exact := constantInt(cv); exact {
+			if c == -1 {
+				return false, true
+			}
+			if c >= 0 {
+				return true, true
+			}
+		}
+		return false, false
+	}
+	switch x := e.(type) {
+	case *ast.Ident:
+		// the key variable of a range statement over a slice / array / string / integer
+		if o := f.ObjOf(x); o != nil {
+			if rs, isRange := f.Prog.Parent(declIdent(f, o)).(*ast.RangeStmt); isRange && rs.Key != nil && f.Info().Defs[rangeIdent(rs.Key)] == o {
+				if tv, has := f.Info().Types[rs.X]; has && tv.Type != nil {
+					switch tv.Type.Underlying().(type) {
+					case *types.Slice, *types.Array, *types.Basic, *types.Pointer:
+						return true, true
+					}
+				}
+			}
+		}
+	case *ast.CallExpr:
+		if id, isId := x.Fun.(*ast.Ident); isId && (id.Name == "len" || id.Name == "cap") {
+			if _, isB := f.Info().Uses[id].(*types.Builtin); isB {
+				return true, true
+			}
+		}
+	}
+	return false, false
+}
+
+func rangeIdent(e ast.Expr) *ast.Ident {
+	id, _ := e.(*ast.Ident)
+	return id
+}
+
+// declIdent finds the identifier that declares the object inside the function.
+func declIdent(f *Fn, o types.Object) ast.Node {
+	var out ast.Node
+	ast.Inspect(f.Body, func(n ast.Node) bool {
+		if id, ok := n.(*ast.Ident); ok && f.Info().Defs[id] == o {
+			out = id
+			return false
+		}
+		return out == nil
+	})
+	if out == nil {
+		return nil
+	}
 	return out
 }
 
@@ -1171,9 +1364,14 @@ func (ga *guardAnalysis) transferNode(n ast.Node, s []uint64) []uint64 {
 		out := make([]uint64, ga.words)
 		var cf *cform
 		if known && rhs != nil {
-			if ga.g.nilFlags[ga.ca.flags[k]] {
+			switch {
+			case ga.g.nilFlags[ga.ca.flags[k]]:
 				cf = ga.nilForm(rhs)
-			} else {
+			case ga.g.signFlags[ga.ca.flags[k]]:
+				if nn, ok := signOf(f, rhs); ok {
+					cf = &cform{op: gTrue, val: nn}
+				}
+			default:
 				cf = ga.ca.form(rhs, 0)
 			}
 		}
@@ -1231,7 +1429,7 @@ func (ga *guardAnalysis) transferNode(n ast.Node, s []uint64) []uint64 {
 				if k >= 0 {
 					// zero value: false
 					// zero value: false for a boolean, nil (flag true) for a pointer-like variable
-					zero := ga.g.nilFlags[ga.ca.flags[k]]
+					zero := ga.g.nilFlags[ga.ca.flags[k]] || ga.g.signFlags[ga.ca.flags[k]]
 					bit := uint(ga.nLeaf + k)
 					out := make([]uint64, ga.words)
 					for a := 0; a < 1<<uint(ga.nVar); a++ {
